@@ -176,7 +176,7 @@ impl Property for C09 {
         let mut templates: Vec<String> = (0..ntempl).map(|_| gen_template(rng)).collect();
         if rng.chance(1, 6) {
             // arguments that look like expression operators
-            templates.push(rng.pick(&["-o", "(", ")", "!", ",", "-print", "+", "{}+", ";x"]).to_string());
+            templates.push(rng.pick(&["-o", "(", ")", "!", ",", "-print", "+", "{}+", ";x", "-help", "--help", "-version", "--version", "-delete", "-quit", "-exec", "-maxdepth", "-files0-from", "--"]).to_string());
         }
         // never let the template end the action early or turn it into '{} +'
         for i in 0..templates.len() {
@@ -259,7 +259,9 @@ impl Property for C09 {
         }
         let mutated = !sc.find.mutations.is_empty();
         let mut rw = RefWalk::default();
-        if mutated {
+        // the reference walk is needed after mutations, and - when the expression has no test
+        // before the action - to know that every entry must reach it
+        if mutated || sc.tests.is_empty() {
             let wcfg = WalkCfg {
                 follow: FollowMode::P,
                 mindepth: 0,
@@ -439,6 +441,19 @@ impl Property for C09 {
         }
         if !reached.is_empty() {
             rep.probe("action_reached");
+        }
+        if !mutated && sc.tests.is_empty() && !rw.diag_owed && rw.may.is_empty() {
+            let mut want: Vec<&str> = rw.must.iter().map(|(p, _)| p.as_str()).collect();
+            let mut got: Vec<&str> = reached.iter().map(|s| s.as_str()).collect();
+            want.sort();
+            got.sort();
+            if want != got {
+                rep.fail(
+                    "C09.action-not-reached-once-for-every-entry",
+                    format!("{}: no test precedes the action, the tree has {} entries, the action was reached for {}", describe(), want.len(), got.len()),
+                );
+                return;
+            }
         }
         // find's own exit status is unaffected by failing or missing commands
         if !mutated {
